@@ -307,5 +307,10 @@ func reduceTemplate(t tmpl, failing map[string]bool) string {
 			}
 		}
 	}
+	// the two groups of a routes template are configured alike unless only /b has a formatter:
+	// "throw|write" and "write|throw" are then the same finding seen from either request
+	if t.Family == "routes" && fmtKinds[d[0]] != "g2only" && d[3] > d[4] {
+		d[3], d[4] = d[4], d[3]
+	}
 	return nameOf(t.Family, d)
 }
